@@ -189,6 +189,10 @@ def run(ck):
             if nn >= 1000 and abs(tt - nn * pr) > 6 * sigma + 1:
                 ck.violation(f"sampling-fraction-off-per-function:rate{rate}", f"rate {rate}: {qual} traced {tt} of {nn} calls, expected {nn * pr:.0f} +- {6 * sigma:.0f}",
                              {"rate": rate, "function": qual, "calls": nn, "traced": tt})
+    from vf.props import sessions
+
+    sessions.run_into(ck, "C18", 32 if quick else 300)
+    ck.need("session_blocks_with_sampling_off_after_a_sampled_block", 20, "no block without sampling followed a sampled block on the same logger")
     ck.counters["per_function_fraction_judgements"] = len(perfn)
     ck.need("per_function_fraction_judgements", 6)
     ck.need("prestart_programs", 20)
